@@ -61,14 +61,55 @@ theorem setAll_eq_assignAll {kvs pairs : List (Key × Val)} (hv : ∀ p ∈ pair
     rw [setItemRaw_eq_assign (hv (k, v) List.mem_cons_self)]
     exact ih (fun q hq => hv q (List.mem_cons_of_mem _ hq))
 
+/-- No key is named twice (as Python keys: `True` and `1` are the same key). -/
+def distinctKeysB : List (Key × Val) → Bool
+  | [] => true
+  | p :: rest => rest.all (fun q => !(p.1.eqv q.1)) && distinctKeysB rest
+
+theorem dictSet_nokey {kvs : List (Key × Val)} {k : Key} (v : Val) (h : hasKey kvs k = false) :
+    dictSet kvs k v = kvs ++ [(k, v)] := by
+  unfold dictSet; simp [h]
+
+theorem foldl_dictSet_distinct (ps acc : List (Key × Val))
+    (ha : ∀ a ∈ acc, ∀ p ∈ ps, a.1.eqv p.1 = false) (hd : distinctKeysB ps = true) :
+    ps.foldl (fun acc p => dictSet acc p.1 p.2) acc = acc ++ ps := by
+  induction ps generalizing acc with
+  | nil => simp
+  | cons p rest ih =>
+    simp only [distinctKeysB, Bool.and_eq_true, List.all_eq_true, Bool.not_eq_true'] at hd
+    have hk : hasKey acc p.1 = false := by
+      unfold hasKey
+      rw [List.any_eq_false]
+      intro a haa
+      simp [ha a haa p List.mem_cons_self]
+    simp only [List.foldl_cons, dictSet_nokey p.2 hk]
+    rw [ih (acc ++ [(p.1, p.2)]) ?_ hd.2]
+    · simp
+    · intro a haa q hq
+      rcases List.mem_append.mp haa with h | h
+      · exact ha a h q (List.mem_cons_of_mem _ hq)
+      · simp only [List.mem_singleton] at h
+        subst h
+        exact hd.1 q hq
+
+/-- Arguments that name every key once are merged into themselves. -/
+theorem mergePairs_distinct {ps : List (Key × Val)} (hd : distinctKeysB ps = true) :
+    PgDict.mergePairs ps = ps := by
+  unfold PgDict.mergePairs
+  rw [foldl_dictSet_distinct ps [] (by intro a ha; cases ha) hd]
+  rfl
+
 /-- Which dict steps are in the domain of the refinement theorem: every value argument is free of
-nested `MISSING` (top-level `MISSING` is extension 1). -/
+nested `MISSING` (top-level `MISSING` is extension 1), and one `update` / `rebind` call names every
+key once (positional entries and keyword arguments together). Calls that repeat a key are in the
+model and in the correspondence run; the counterexample `C02_dict_counterexample_update_merge`
+shows why they cannot be admitted unconditionally. -/
 def admissibleD (st : DStep) : Bool :=
   match st.op with
   | .set _ v => missingFree v
   | .setdefault _ d => missingFree d
-  | .update pairs => pairs.all (fun p => missingFree p.2)
-  | .rebind pairs => pairs.all (fun p => missingFree p.2)
+  | .update pairs kw => (pairs ++ kw).all (fun p => missingFree p.2) && distinctKeysB (pairs ++ kw)
+  | .rebind pairs kw => (pairs ++ kw).all (fun p => missingFree p.2) && distinctKeysB (pairs ++ kw)
   | _ => true
 
 theorem step_dict (kvs : List (Key × Val)) (st : DStep) (hg : GoodD kvs) (ha : admissibleD st = true) :
@@ -115,13 +156,13 @@ theorem step_dict (kvs : List (Key × Val)) (st : DStep) (hg : GoodD kvs) (ha : 
         obtain ⟨p, hp, he⟩ := lookupKey_mem hl
         rw [← he]; exact (hg p hp).1
       simp [hk, hm]
-  | update pairs =>
-    simp only [admissibleD, List.all_eq_true] at ha
-    simp only [implD, specD, setAll_eq_assignAll ha]
+  | update pairs kw =>
+    simp only [admissibleD, Bool.and_eq_true, List.all_eq_true] at ha
+    simp only [implD, specD, mergePairs_distinct ha.2, setAll_eq_assignAll ha.1]
   | copy => simp only [implD, specD, cloneKvs_eq]
-  | rebind pairs =>
-    simp only [admissibleD, List.all_eq_true] at ha
-    simp only [implD, specD, setAll_eq_assignAll ha]
+  | rebind pairs kw =>
+    simp only [admissibleD, Bool.and_eq_true, List.all_eq_true] at ha
+    simp only [implD, specD, mergePairs_distinct ha.2, setAll_eq_assignAll ha.1]
 
 /-! ### Preservation of the dict invariant -/
 
@@ -189,15 +230,15 @@ theorem specD_good (kvs : List (Key × Val)) (st : DStep) (hg : GoodD kvs) (ha :
     split
     · exact hg
     · exact goodD_assign hg (by simpa [admissibleD] using ha)
-  | update pairs =>
-    simp only [admissibleD, List.all_eq_true] at ha
-    exact goodD_assignAll hg ha
+  | update pairs kw =>
+    simp only [admissibleD, Bool.and_eq_true, List.all_eq_true] at ha
+    exact goodD_assignAll hg ha.1
   | copy => exact hg
-  | rebind pairs =>
-    simp only [admissibleD, List.all_eq_true] at ha
+  | rebind pairs kw =>
+    simp only [admissibleD, Bool.and_eq_true, List.all_eq_true] at ha
     simp only [specD]
     split
     · exact hg
-    · exact goodD_assignAll hg ha
+    · exact goodD_assignAll hg ha.1
 
 end Pg.C02
